@@ -153,10 +153,31 @@ package tree
 //@   ensures [elements_are_branches_with_both_ends] forall k int :: 0 <= k && k < len(result) ==> result[k] != nil && allocated(result[k]) && result[k].right != nil && result[k].left != nil && allocated(result[k].left) && allocated(result[k].right)
 //@   ensures [fresh_storage] fresh_arr(result)
 
+// ReinitIndexes / ReinitInternalIndexes (property C04): name index first, then fresh bitsets, then their content, then
+// the hash sums of both sides, then depths - each step only after the previous one succeeded; only index fields are
+// written
 //@ func (*tree.Tree).ReinitIndexes
+//@   flag countcalls
 //@   requires t != nil
-//@   allocates map[string]*Node, bitset.BitSet, []*Node, []string, iface
-//@   assigns t.tipIndex, Node.tipid, Node.depth, Edge.bitset, Edge.hashcodeleft, Edge.hashcoderight, Edge.ntaxleft, Edge.ntaxright
+//@   allocates map[string]*Node, bitset.BitSet, []*Node, []*Edge, []string, iface
+//@   assigns mapof("map[string]*Node"), Node.tipid, Node.depth, Node.rootdepth, Edge.bitset, Edge.hashcodeleft, Edge.hashcoderight, Edge.ntaxleft, Edge.ntaxright, ghost(bs_bits), ghost(bs_len), ghost(tipindex_stale), ghost(ncalls_UpdateTipIndex), ghost(ncalls_ClearBitSets), ghost(ncalls_UpdateBitSet), ghost(ncalls_ComputeEdgeHashes), ghost(ncalls_ComputeDepths)
+//@   call (*tree.Tree).ClearBitSets [bitsets_are_recreated_after_the_name_index_was_rebuilt] ghost(ncalls_UpdateTipIndex) == old(ghost(ncalls_UpdateTipIndex)) + 1 && err == nil
+//@   call (*tree.Tree).UpdateBitSet [bitsets_are_filled_after_they_were_recreated] ghost(ncalls_ClearBitSets) == old(ghost(ncalls_ClearBitSets)) + 1 && err == nil
+//@   call (*tree.Tree).ComputeEdgeHashes [hash_sums_after_the_bitsets] ghost(ncalls_UpdateBitSet) == old(ghost(ncalls_UpdateBitSet)) + 1 && err == nil && a1 == nil
+//@   call (*tree.Tree).ComputeDepths [depths_last] ghost(ncalls_ComputeEdgeHashes) == old(ghost(ncalls_ComputeEdgeHashes)) + 1
+//@   ensures [success_means_every_step_ran_once] result == nil ==> ghost(ncalls_ComputeDepths) == old(ghost(ncalls_ComputeDepths)) + 1 && ghost(ncalls_UpdateTipIndex) == old(ghost(ncalls_UpdateTipIndex)) + 1
+
+//@ func (*tree.Tree).ComputeEdgeHashes
+//@   flag noframe
+//@   requires t != nil
+//@   call (*tree.Tree).computeEdgeHashesRightRecur [down_pass_from_the_starting_node_without_a_branch] a1 == (cur == nil ? t.root : cur) && a2 == nil && a3 == nil
+//@   call (*tree.Tree).computeEdgeHashesLeftRecur [up_pass_after_the_down_pass_from_the_same_node] a1 == (cur == nil ? t.root : cur) && a2 == nil && a3 == nil
+
+// depths of every node from the tips and from the root (thin)
+//@ func (*tree.Tree).ComputeDepths
+//@   requires t != nil
+//@   allocates iface
+//@   assigns Node.depth, Node.rootdepth
 
 // CompareTipIndexes (properties C08, C10): accepted exactly when both name indexes are non-empty, of equal size,
 // and every name of the first is a name of the second (with equal sizes: the same name sets)
@@ -1030,9 +1051,13 @@ package tree
 
 // recomputes branch bitsets, hash codes, side sizes and node depths: writes those index fields only
 //@ func (*tree.Tree).ReinitInternalIndexes
+//@   flag countcalls
 //@   requires t != nil
 //@   allocates bitset.BitSet, iface, []*Node, []*Edge, []string
-//@   assigns Edge.bitset, Edge.hashcodeleft, Edge.hashcoderight, Edge.ntaxleft, Edge.ntaxright, Node.depth, Node.rootdepth, ghost(bs_bits), ghost(bs_len)
+//@   assigns Edge.bitset, Edge.hashcodeleft, Edge.hashcoderight, Edge.ntaxleft, Edge.ntaxright, Node.depth, Node.rootdepth, ghost(bs_bits), ghost(bs_len), ghost(ncalls_ClearBitSets), ghost(ncalls_UpdateBitSet), ghost(ncalls_ComputeEdgeHashes), ghost(ncalls_ComputeDepths)
+//@   call (*tree.Tree).UpdateBitSet [bitsets_are_filled_after_they_were_recreated] ghost(ncalls_ClearBitSets) == old(ghost(ncalls_ClearBitSets)) + 1
+//@   call (*tree.Tree).ComputeEdgeHashes [hash_sums_after_the_bitsets] ghost(ncalls_UpdateBitSet) == old(ghost(ncalls_UpdateBitSet)) + 1 && a1 == nil
+//@   call (*tree.Tree).ComputeDepths [depths_last] ghost(ncalls_ComputeEdgeHashes) == old(ghost(ncalls_ComputeEdgeHashes)) + 1
 
 // RemoveTips (property C06): exactly the tips whose membership in the given names differs from `revert` are
 // removed, and the tip-name index is rebuilt after the last removal
